@@ -30,6 +30,8 @@ def c01(tier: str) -> list[dict[str, Any]]:
         plan("G2 with a Fedora vm1 (both vms need a setup of the same name), 1 worker", trav.menu("G2", nets="net1", vm_strs={"vm1": "only Fedora\n", "vm2": "only Win10\n", "vm3": "only Ubuntu\n"}, label="G2-fedora"), m, K=1, statuses=["PASS"]),
         plan("composed: G2 2 workers judged by the real states.setup/pool layer", trav.menu("G2"), [M.c01_composed], K=1, statuses=["PASS", "FAIL"], max_nonpass=1, pool_bits="all", pool_states=["customize"], pool_fixed={"install": ["shared"]}, real_layer=True,
              bounds={"oracle": "real states.setup.get_states over the real SourcedStateBackend/RootSourcedStateBackend with the test's own parameters; storage = store model"}),
+        plan("G1 reruns of failures only: a second worker meets a setup test that is still running", trav.menu("G1", params={"max_tries": "2", "rerun_status": "fail error"}, label="G1-tries2-rerun"), m, K=1, statuses=["PASS"], pool_fixed=DEEP),
+        plan("G9 two leaves, the shared setup ends with a warning", trav.menu("G9", label="G9-warn"), m, K=1, statuses=["PASS", "WARN"], max_nonpass=1, pool_fixed=DEEP),
         plan("G9 two leaves, reuse scope narrowed to own+shared, 2 workers", trav.menu("G9", params={"pool_scope": "own shared"}, label="G9-ownshared"), m, K=1, statuses=["PASS"], pool_fixed={"install": ["shared"]}),
     ]
     if tier == "thorough":
